@@ -190,6 +190,29 @@ def part_d(chk, thorough):
     chk.part("d_growth", inputs=len(reqs), sizes=sizes, nesting_cap=64, slowest=[{"us": a, "derive": b, "item_len": c} for a, b, c in slow])
 
 
+def part_e(chk):
+    """Placeholders / arguments naming positional fields at and beyond the end of the field list, in every fmt position."""
+    reqs = []
+    fmt = [("Display", "display"), ("LowerHex", "lower_hex"), ("Pointer", "pointer"), ("Debug", "debug")]
+    for derive, a in fmt:
+        for n in range(0, 4):
+            tys = ", ".join("u8" for _ in range(n))
+            for i in range(0, n + 3):
+                for lit, args in (("{_%d}" % i, ""), ("{_%d:?} x" % i, ""), ("{0}", ", _%d" % i), ("{x} {}", ", _0, x = _%d" % i), ("{:.*}", ", _%d, _0" % i),
+                                  ("{_%d}{_%d}" % (i, max(i - 1, 0)), ""), ("{:_%d$}" % i, ", 1"), ("{:.1$}", ", 1, _%d" % i)):
+                    at = '#[%s("%s"%s)]' % (a, lit, args)
+                    reqs.append({"derive": derive, "item": "%s struct S<T>(%s);" % (at, ", ".join(["T"] * n))})
+                    reqs.append({"derive": derive, "item": "enum E<T> { %s A(%s), #[%s(\"b\")] B }" % (at, ", ".join(["T"] * n), a)})
+                    if derive != "Debug":
+                        reqs.append({"derive": derive, "item": "%s enum E<T> { A(%s), #[%s(\"b\")] B }" % (at, ", ".join(["T"] * n), a)})
+                        reqs.append({"derive": derive, "item": '#[%s("{_variant} %s"%s)] enum E<T> { #[%s("a")] A(%s), #[%s("b")] B }' % (a, lit, args, a, ", ".join(["T"] * n), a)})
+                    else:
+                        reqs.append({"derive": derive, "item": "struct S<T>(%s #[debug(\"%s\"%s)] T);" % ("".join("T, " for _ in range(max(n - 1, 0))), lit, args)})
+    res = svc(reqs, timeout=120)
+    evaluate(chk, "e_field_index_boundaries", reqs, res)
+    chk.part("e_field_index_boundaries", inputs=len(reqs), note="`_i` for i = 0 .. fields+2 as named placeholder, positional argument, alias, width/precision parameter, in struct / variant / shared-enum / Debug-field positions")
+
+
 def run(chk, tier):
     thorough = tier == "thorough"
     exe = inproc_bin()
@@ -198,6 +221,7 @@ def run(chk, tier):
     if len(derives) != 50:
         raise MachineryError("expected 50 derives in the table generated from lib.rs, found %d" % len(derives))
     part_a(chk, derives)
+    part_e(chk)
     sweep(chk, "parser", ["--len", "5" if thorough else "4"], "b_parser_direct")
     sweep(chk, "lit", ["--len", "4" if thorough else "3"], "b_literals_in_attributes")
     if thorough:
